@@ -259,6 +259,37 @@ func TestC01SlowConsumer(t *testing.T) {
 	vWriteJSON(t, "VERIF_OUT", results)
 }
 
+// Lines that begin with a dot, and one that begins with the text of the close message itself, in plain mode.
+func TestC01SynText(t *testing.T) {
+	vInit("stdout")
+	dir, _ := os.MkdirTemp("", "c01y-")
+	defer os.RemoveAll(dir)
+	config.Server.MaxLineLength = 1024 * 1024
+	var results []map[string]interface{}
+	for _, content := range []string{
+		"first\n.hidden looking line\n..\n.\nlast\n",
+		".synthetic line\n.sy\n.ack close connection\nend\n",
+		"before\n.syn close connection said the log\nafter 1\nafter 2\n",
+	} {
+		path := filepath.Join(dir, "dots.log")
+		os.WriteFile(path, []byte(content), 0644)
+		var problem string
+		out := c01Capture(func() { problem = c01Session(path, true, true, 32*1024) })
+		// signature of the open finding: the line is not printed and the session ends there or shortly after (the client's
+		// shutdown races with the copy loop): the output is a prefix of the file without that line, at least up to it
+		cut := strings.Index(content, ".syn close connection")
+		sig := false
+		if cut >= 0 && problem == "" {
+			rest := content[cut:]
+			without := content[:cut] + rest[strings.Index(rest, "\n")+1:]
+			sig = strings.HasPrefix(without, out) && len(out) >= cut
+		}
+		results = append(results, map[string]interface{}{"content": content, "output": out, "equal": out == content && problem == "", "problem": problem,
+			"prefix_until_syn_line": sig})
+	}
+	vWriteJSON(t, "VERIF_OUT", results)
+}
+
 func c01Max(a, b int) int {
 	if a > b {
 		return a
